@@ -35,7 +35,7 @@ BlockHasCmt(n) == HasCmtChild(n) \/ \E i \in 1..Len(n.c) : n.c[i].k = "Code" /\ 
    the body either way — is the expression. *)
 UnwrapBody(cs) ==
   LET n == Len(cs) IN
-  IF n > 0 /\ cs[n].k = "CodeBlock" /\ cs[n].inner /\ ~BlockHasCmt(cs[n]) /\ Len(BlockInner(cs[n])) = 1
+  IF n > 0 /\ cs[n].k = "CodeBlock" /\ cs[n].inner /\ Len(BlockInner(cs[n])) = 1
   THEN [cs EXCEPT ![n] = BlockInner(cs[n])[1]] ELSE cs
 
 (* A trailing comma of math Args or of an implicit math row Array is layout: the printer
@@ -90,7 +90,7 @@ Norm(n, mode) ==
                            THEN [k |-> n.k, c |-> NormSeq(DropTrailingComma(n.k, NoCmtSp(n.c)), "math")]
   ELSE IF mode = "math"    THEN [k |-> n.k, c |-> MergeSp(NormSeq(NoCmt(n.c), "math"))]
   ELSE IF n.k = "Parenthesized" THEN Norm(Kept(n.c)[1], "code")
-  ELSE IF n.k = "CodeBlock" /\ ~BlockHasCmt(n) /\ Len(BlockInner(n)) = 1 /\ BlockInner(n)[1].k \notin Binding
+  ELSE IF n.k = "CodeBlock" /\ Len(BlockInner(n)) = 1 /\ BlockInner(n)[1].k \notin Binding
                            THEN Norm(BlockInner(n)[1], "code")
   ELSE IF n.k = "Closure"  THEN [k |-> "Closure", c |-> NormSeq(UnwrapBody(Kept(n.c)), "code")]
   ELSE IF n.k = "Dict"     THEN [k |-> "Dict", c |-> NormSeq(SelectSeq(Kept(n.c), LAMBDA x : x.k # "Colon"), "code")]
@@ -147,8 +147,11 @@ CmtPos(lv) ==
         ELSE IF x.k = "Not" /\ NextSigKind(lv, i + 1) = "In" THEN st
         ELSE [st EXCEPT !.w = @ + WordCount(x)]
   IN FoldLeftDomain(step, [w |-> 0, acc |-> <<>>], lv).acc
+(* the words in order; the words of adjacent Text tokens form one run (the parser splits Text at double blanks,
+   the printer joins them with one) *)
 Words(lv) == LET ws == SelectSeq(lv, LAMBDA x : WordCount(x) > 0 /\ x.k \notin {"Str", "Raw"})
-             IN [i \in 1..Len(ws) |-> IF ws[i].k = "Text" THEN <<"Text", ws[i].ws>> ELSE <<ws[i].k, ws[i].t>>]
+             IN FoldLeft(LAMBDA acc, x : IF x.k = "Text" THEN acc \o [j \in 1..Len(x.ws) |-> <<"W", x.ws[j]>>]
+                                         ELSE Append(acc, <<x.k, x.t>>), <<>>, ws)
 R06(e) == CmtPos(e.pin.lv) = CmtPos(e.pout.lv) /\ Words(e.pin.lv) = Words(e.pout.lv)
 
 (***************************************************************************)
